@@ -51,6 +51,13 @@ Theorem c04_no_old_term_progress : forall T n0 l a n' o,
 Proof. exact no_old_term_progress. Qed.
 Print Assumptions c04_no_old_term_progress.
 
+(* The fence itself never drops: under every schedule that keeps the shard (crashes and restarts, role changes, failed
+   snapshots, broken streams included) the node's term only moves forward, between any two points of the schedule. *)
+Theorem c04_term_monotone : forall l1 l2 n, inv n -> Forall wf_action (l1 ++ l2) -> Forall keeps_shard (l1 ++ l2) ->
+  n_term (state_after cfg_fixed n l1) <= n_term (state_after cfg_fixed n (l1 ++ l2)).
+Proof. exact run_term_mono_between. Qed.
+Print Assumptions c04_term_monotone.
+
 (* A DeleteShard of a term older than the node's is refused in every residency state of the shard (controller loaded as
    follower or leader, or not loaded: the stored term decides), and term, log and commit offset stay as they are.
    (A DeleteShard of a term >= the node's removes the shard, fence included: [keeps_shard] above.) *)
